@@ -1452,6 +1452,12 @@ class DiskRefsContainer(RefsContainer):
                 continue
             if all or ref.startswith(LOCAL_TAG_PREFIX):
                 try:
+                    contents = self.read_ref(ref)
+                    if contents is not None and contents.startswith(SYMREF):
+                        # Symbolic refs cannot be stored in packed-refs;
+                        # packing the value they resolve to would turn them
+                        # into ordinary refs.
+                        continue
                     sha = self[ref]
                     if sha:
                         refs_to_pack[ref] = sha
